@@ -81,7 +81,7 @@ def main(prop, prop_v, tier, seed, replay, scenarios, own_prefixes, known_prefix
     stats_total, nhist, ndiff, nmon, nknown = {}, 0, 0, 0, 0
     samples, nontrivial = [], set()
     first_diff = None
-    if hexe and mexe:
+    if hexe:
         os.makedirs(os.path.join(L.BUILD, "hist"), exist_ok=True)
         jobs = []
         if replay:
@@ -104,6 +104,10 @@ def main(prop, prop_v, tier, seed, replay, scenarios, own_prefixes, known_prefix
                 # of the recovery, for a small tree and one crossing the first tile boundary
                 for base in range(0, 240, 30):
                     jobs.append((seed * 1000 + 500 + base, "crashenum:%d" % base))
+        if mexe is None:
+            # the model could not be built (broken proof / translation): the monitors-only probes still run,
+            # they judge the implementation alone and may find the failing input
+            jobs = [j for j in jobs if j[1] in PROBES]
         def work(job):
             s, sc = job
             if s == "replay":
